@@ -236,7 +236,9 @@ class FakeNpRandom:
             pr = [x / s for x in pr]
         if size is None:
             i = EX.choose("np.choice", [(i, q) for i, q in enumerate(pr)])
-            return pop[i]
+            # type fidelity: numpy indexes the *array* made of `a`, so the caller gets a numpy scalar (numpy.str_, numpy.int64), not the
+            # Python object that was put in
+            return (_real_np.arange(a) if isinstance(a, (int, _real_np.integer)) else _real_np.array(a))[i]
         size = int(size)
         if replace:
             idx = [EX.choose("np.choice", [(i, q) for i, q in enumerate(pr)]) for _ in range(size)]
